@@ -47,6 +47,10 @@ def animate_unit(cached, pil_source):
         WIDTH_OF, HEIGHT_OF = z3.Function("rendered_width_of", I, I), z3.Function("rendered_height_of", I, I)
         eng.attrs[("BlockImage", "rendered_width")] = lambda e, s, v: [(Rec("dimid", {"id": WIDTH_OF(s.ghost["size"])}), s)]
         eng.attrs[("BlockImage", "rendered_height")] = lambda e, s, v: [(Rec("dimid", {"id": HEIGHT_OF(s.ghost["size"])}), s)]
+        # the size SETTING (a Size member or a pair): with a dynamic setting the rendered size changes (terminal resized, cell ratio
+        # changed) while the setting stays what it is
+        eng.attrs[("BlockImage", "_size")] = lambda e, s, v: [(Rec("dimid", {"id": z3.Int("size_setting")}), s)]
+        eng.attrs[("BlockImage", "size")] = lambda e, s, v: [(Rec("dimid", {"id": z3.Int("size_setting")}), s)]
         eng.genv["hash"] = Fn(lambda e, s, a, k: [(a[0].f["id"], s)] if isinstance(a[0], Rec) and a[0].name in ("sizeid", "dimid") else _unsup("hash of another value"))
 
         def _unsup(msg):
@@ -75,8 +79,9 @@ def animate_unit(cached, pil_source):
             ok = isinstance(raw, Rec) and raw.name == "raw" and raw.f["alpha"] is ALPHA and len(a) == 5 and all(x is y for x, y in zip(a[1:], FMT)) \
                 and raw.f["style"] == (("frame", True), ("style_arg", s.H(STYLE)["@items"]["style_arg"]))
             e.oblige("C11:frame-rendered-with-the-iterator's-own-alpha,style-arguments-and-format", s, ok, prop="C11", kind="pre")
+            e.oblige("C09:frame-rendered-with-the-iterator's-own-alpha,style-arguments-and-format(cached-or-not)", s, ok, prop="C09", kind="pre")
             if not ok:
-                return [(Opaque("frame"), s)]
+                return [(Rec("text", {"id": e.sym_int("some_other_text")}), s)]          # some other text: the run goes on, the obligation above has failed
             return [(Rec("text", {"id": FR(raw.f["n"], raw.f["size"])}), s)]
         eng.methods[("BlockImage", "_format_render")] = m_format
 
